@@ -265,6 +265,18 @@ theorem processPacket_tie (cfg : Dhcp4Srv.Cfg) (now fuel : Nat) (s : State) (hu 
         · refine ⟨_, rfl, s, [], ?_, rfl⟩
           rw [pp_notype cfg now fuel s _ rfl rfl h68' (by simp [optBytes])]
 
+/-- the same as a step of the raw histories of Props/ComposeDhcp (`Dhcp4Frame.stepRaw`, the `rx` event): the step has
+    exactly one outcome, its replies are the replies the regenerated pipeline writes, its state is the pipeline's up
+    to `touch` -/
+theorem rx_step_tie (cfg : Dhcp4Srv.Cfg) (now fuel : Nat) (s : State) (hu : KeysUnique s.table)
+    (hb : ∀ sub, (cfg.sub sub).bcast < 4294967296) (hf : ∀ sub, (cfg.sub sub).bcast ≤ fuel)
+    (rx : Rx) (host : Option MAC) (p : Bytes) :
+    ∃ st rep ret s' c, stepRaw cfg s (.rx now rx p) = [(st, rep)] ∧
+      genProcessRaw cfg now fuel s rx host none p = .ok (some (s', rep, ret)) ∧ touch s' c = touch st c := by
+  obtain ⟨r, hr, s', c, hg, ht⟩ := processPacket_tie cfg now fuel s hu hb hf rx host p
+  refine ⟨r.state, r.replies, r.ret, s', c, ?_, hg, ht⟩
+  simp only [stepRaw, hr]
+
 /-! ### the regenerated pipeline runs (non-vacuity) -/
 
 private def n1 : Subnet := { lan := 256, bits := 24, gw := 257, dns := 257, server := 258, first := 257, dur := 60 }
